@@ -38,8 +38,16 @@ def discharge_one(args):
     I, ob, ent, timeout_ms, seed, both, q = args
     rec = {"name": ob.name, "kind": ob.kind, "trace": ob.trace[-8:], "clause": ob.clause, "qual": q, "size": len(ob.pc)}
     if ent is not None and ent.get("witness") and ob.ctx is not None:
-        st, env = ob.ctx
-        wit = I.spec_bool_old(st, ent["witness"], env) if st.old is not None else I.spec_bool(st, ent["witness"], env)
+        st, env, site_env = ob.ctx
+        if ent.get("at") == "site" or ob.kind in ("site", "excpost"):
+            # witness over the state in which the obligation is stated (site / exit), old(...) = function entry
+            wenv = dict(env); wenv.update({"caller_" + k_: v for k_, v in st.env.items()}); wenv.update(site_env or {})
+            try:
+                wit = I.spec_bool(st, ent["witness"], wenv, old=st.old)
+            except Unsupported:
+                wit = z3.BoolVal(False)      # the witness names something that does not exist on this path: not the known region
+        else:
+            wit = I.spec_bool_old(st, ent["witness"], env) if st.old is not None else I.spec_bool(st, ent["witness"], env)
         ob_out = verify.Oblig(ob.name, ob.pc + [z3.Not(wit)], ob.goal, ob.trace, ob.func, ob.kind, ob.extra)
         d = verify.discharge(ob_out, timeout_ms, seed)
         ob_in = verify.Oblig(ob.name, ob.pc + [wit], ob.goal, ob.trace, ob.func, ob.kind, ob.extra)
@@ -73,12 +81,12 @@ def worker(task):
             out_ = []
             for ob in sl:
                 r_ = par.fork_call(lambda ob=ob: discharge_one((I, ob, known.get(ob.name), timeout_ms, seed, both, q)),
-                                   deadline_s=3 * timeout_ms / 1000 + 10)
+                                   deadline_s=12 * timeout_ms / 1000 + 10)
                 if r_[0] == "ok":
                     out_.append(r_[1])
                 else:
                     out_.append({"name": ob.name, "kind": ob.kind, "trace": ob.trace[-8:], "clause": ob.clause, "qual": q,
-                                 "size": len(ob.pc), "verdict": "unknown", "backend": "z3", "time_s": 3 * timeout_ms / 1000 + 10,
+                                 "size": len(ob.pc), "verdict": "unknown", "backend": "z3", "time_s": 12 * timeout_ms / 1000 + 10,
                                  "reason": "solver exceeded the hard wall-clock limit" if r_[0] == "killed" else r_[1][-500:]})
             return out_
         for res in par.fork_map(do_slice, slices, n):
@@ -162,8 +170,10 @@ def finish(prop, tier, seed, cfg, w, results, extra_results, t0, update_lock):
                 backends[o.get("backend", "z3")] += 1
             else:
                 ent["bad"].append(o)
-            if "known" in o and (ent.get("known") is None or o["known"]["inside_witness"] == "sat"):
-                ent["known"] = o["known"]
+            if "known" in o:
+                rank = {"sat": 2, "unknown": 1}.get(o["known"]["inside_witness"], 0)
+                if ent.get("known") is None or rank > {"sat": 2, "unknown": 1}.get(ent["known"]["inside_witness"], 0):
+                    ent["known"] = o["known"]
             if len(samples) < 6 and o["verdict"] == "unsat" and o["kind"] in ("post", "excpost", "raises", "inv", "site", "frame"):
                 if not any(s["obligation"] == o["name"] for s in samples):
                     samples.append({"obligation": o["name"], "verdict": "discharged", "backend": o.get("backend"),
@@ -204,10 +214,11 @@ def finish(prop, tier, seed, cfg, w, results, extra_results, t0, update_lock):
             discharged += 1
             if "known" in ent:
                 kn = ent["known"]
-                if kn["inside_witness"] == "sat":
-                    known_lines.append(f"KNOWN-FINDING: property={prop} {kn['text']} [obligation {name}]")
+                if kn["inside_witness"] in ("sat", "unknown"):
+                    how = "counter-model found inside the recorded region" if kn["inside_witness"] == "sat" else "recorded region not re-decided within the solver budget"
+                    known_lines.append(f"KNOWN-FINDING: property={prop} {kn['text']} [obligation {name}; proved outside the recorded region; {how}]")
                 else:
-                    print(f"note: known finding on {name} did not reproduce inside its witness region ({kn['inside_witness']})")
+                    print(f"note: known finding on {name} no longer reproduces inside its witness region ({kn['inside_witness']})")
             continue
         sat = [o for o in ent["bad"] if o["verdict"] == "sat"]
         if sat:
